@@ -37,7 +37,7 @@ RoundTrip(r) ==
     IN /\ r.exc = ""
        /\ A.time = B.time /\ A.E = B.E /\ A.tid = B.tid
        /\ \A n \in Node : PosEq(A.pos[n], B.pos[n])
-       /\ (r.fmt \in {"geff", "internal"} =>
+       /\ (r.fmt \in {"geff", "geff_na", "internal"} =>
              /\ A.lid = B.lid /\ A.seg = B.seg /\ r.pre.extra = r.rt.extra
              /\ (HasSeg => A.area = B.area)
              /\ ("iou" \in A.reg => \A e \in A.E : RatEq(A.iou[e], B.iou[e]))
@@ -52,7 +52,7 @@ CentroidPos(M) == CPos(M, 1)
 StartsWith(s, p) == Len(s) >= Len(p) /\ SubSeq(s, 1, Len(p)) = p
 CentroidCheckRejects(r) ==
     LET A == DecO(r.pre) IN
-    /\ r.fmt = "geff" /\ HasSeg /\ r.exc = "ValueError: Error testing seg id:\n"
+    /\ r.fmt \in {"geff", "geff_na"} /\ HasSeg /\ r.exc = "ValueError: Error testing seg id:\n"
     /\ \E n \in Present(A) : MaskOf(A, n) # {} /\ CentroidPos(MaskOf(A, n)) \notin {InFrame(q) : q \in MaskOf(A, n)}
 \* ---- C15 --------------------------------------------------------------------------
 RECURSIVE Anc(_, _)
